@@ -26,11 +26,14 @@ import io
 import itertools
 import json
 import tokenize
+import warnings
 
 from mc import harness as H
 from mc.enumprop import Enum, PartReport, part_of, pmap
 
 LEVEL = 'exploration'
+# Texts like `()()` compile with a SyntaxWarning, both here and in the engine: not of interest.
+warnings.simplefilter('ignore', SyntaxWarning)
 ALPHABET = ('$', 'a', '(', ')', '"', '#', '\n', ' ', '=', ':')
 NBATCH = 16
 XCOLS = ['X%02d' % i for i in range(1, NBATCH + 1)]
@@ -342,12 +345,9 @@ def reference_function(text):
       raise Unspecified('rec rebound other than by assignment')
   body = tree.body
   own = list(_own_nodes(body))
-  if any(isinstance(n, (ast.Yield, ast.YieldFrom, ast.Await)) for n in own):
-    # A formula that is a generator/coroutine: compile-time errors aside, its "value" is not
-    # determined by the statement.  Checked for compile errors below, value unspecified.
-    gen = True
-  else:
-    gen = False
+  # A formula that is a generator/coroutine: its "value" is not determined by the statement; it
+  # is still invalid if it does not compile as a function body.
+  gen = any(isinstance(n, (ast.Yield, ast.YieldFrom, ast.Await)) for n in own)
   if not body:
     body = [ast.Pass()]
   elif isinstance(body[-1], ast.Expr):
